@@ -548,6 +548,7 @@ def main(argv):
     if a.setup:
         t = time.time()
         build.build_rt()
+        log(build.lin_selftest())
         build.build_src()
         names = sorted({h["name"] for p in PROPS.values() for h in p["harnesses"]})
         # warm the cache for the unchanged tree
